@@ -7,6 +7,7 @@
 //!                          get_magic_num_from_bytes of those bytes
 //!   (2 minor idx arg)   -> ((op result_or_-1)...) jump_abs_addr(minor, op, idx, arg) for op in 0..=255
 //!   (3 path)            -> declaration records of one .d.er file (see `decls`)
+//!   (5)                 -> magic_runs over the whole u16 domain (see fn magic_runs)
 //!   (4 minor src)       -> (0 (distinct opcode bytes at even offsets of all code objects)) | (1 msg) on compile error
 #[allow(dead_code)]
 #[path = "../../common/sx.rs"]
@@ -79,6 +80,37 @@ fn magic(lo: u32, hi: u32) -> Sx {
             z(b[3] as i128),
             z(back as i128),
         ]));
+    }
+    Sx::L(out)
+}
+
+/// whole u16 domain (the magic number erg keeps is built from two bytes):
+/// ((prefix bad_bytes bad_back) (lo hi major minor)...) maximal runs of magic numbers get_ver_from_magic_num maps to one version;
+/// prefix = u32 of get_magic_num_bytes(0); bad_bytes = #m with get_magic_num_bytes(m) != (prefix | m).to_le_bytes();
+/// bad_back = #m with get_magic_num_from_bytes(get_magic_num_bytes(m)) != m
+fn magic_runs() -> Sx {
+    let prefix = u32::from_le_bytes(get_magic_num_bytes(0));
+    let (mut bad_bytes, mut bad_back) = (0i128, 0i128);
+    let mut runs: Vec<(u32, u32, i128, i128)> = vec![];
+    for m in 0..=65535u32 {
+        let b = get_magic_num_bytes(m);
+        if b != (prefix | m).to_le_bytes() {
+            bad_bytes += 1;
+        }
+        if get_magic_num_from_bytes(&b) != m {
+            bad_back += 1;
+        }
+        if let Ok(v) = catch_unwind(|| get_ver_from_magic_num(m)) {
+            let (ma, mi) = (v.major as i128, v.minor.map(|x| x as i128).unwrap_or(-2));
+            match runs.last_mut() {
+                Some(r) if r.1 + 1 == m && r.2 == ma && r.3 == mi => r.1 = m,
+                _ => runs.push((m, m, ma, mi)),
+            }
+        }
+    }
+    let mut out = vec![Sx::L(vec![z(prefix as i128), z(bad_bytes), z(bad_back)])];
+    for (lo, hi, ma, mi) in runs {
+        out.push(Sx::L(vec![z(lo as i128), z(hi as i128), z(ma), z(mi)]));
     }
     Sx::L(out)
 }
@@ -239,6 +271,7 @@ fn main() {
         1 => magic(x.nth(1).z() as u32, x.nth(2).z() as u32),
         2 => jumps(x.nth(1).z() as u8, x.nth(2).z() as usize, x.nth(3).z() as usize),
         3 => decls(&x.nth(1).string()),
+        5 => magic_runs(),
         4 => compile(x.nth(1).z() as u8, x.nth(2).string()),
         _ => Sx::L(vec![z(-998)]),
     });
